@@ -61,6 +61,8 @@ pub struct Built {
     pub monotone: bool,
 }
 
+pub const FRONT_ENDS: [&str; 6] = ["raw::Builder::insert/add", "MapBuilder/SetBuilder::insert", "raw::Builder::extend_iter", "Map::from_iter/Set::from_iter", "MapBuilder::extend_stream of a built map", "raw::Fst::from_iter_map/from_iter_set"];
+
 fn build_real(a: &Art, front: usize) -> Result<Vec<u8>, String> {
     // three front ends; all must agree (C15 is not claimed, but a disagreement
     // is reported as a native failure of C01's artifact construction)
@@ -72,6 +74,43 @@ fn build_real(a: &Art, front: usize) -> Result<Vec<u8>, String> {
                 if a.is_map { b.insert(k, *v).map_err(e)?; } else { b.add(k).map_err(e)?; }
             }
             b.into_inner().map_err(e)
+        }
+        2 => {
+            let mut b = Builder::new_type(Vec::new(), 0).map_err(e)?;
+            if a.is_map {
+                b.extend_iter(a.kvs.iter().map(|(k, v)| (k.clone(), fst::raw::Output::new(*v)))).map_err(e)?;
+            } else {
+                for (k, _) in &a.kvs { b.add(k).map_err(e)?; }
+            }
+            b.into_inner().map_err(e)
+        }
+        3 => {
+            if a.is_map {
+                fst::Map::from_iter(a.kvs.iter().map(|(k, v)| (k.clone(), *v))).map(|m| m.as_fst().as_bytes().to_vec()).map_err(e)
+            } else {
+                fst::Set::from_iter(a.kvs.iter().map(|(k, _)| k.clone())).map(|m| m.as_fst().as_bytes().to_vec()).map_err(e)
+            }
+        }
+        4 => {
+            let first = build_real(a, 1)?;
+            if a.is_map {
+                let m = fst::Map::new(first).map_err(e)?;
+                let mut b = MapBuilder::new(Vec::new()).map_err(e)?;
+                b.extend_stream(m.stream()).map_err(e)?;
+                b.into_inner().map_err(e)
+            } else {
+                let m = fst::Set::new(first).map_err(e)?;
+                let mut b = SetBuilder::new(Vec::new()).map_err(e)?;
+                b.extend_stream(m.stream()).map_err(e)?;
+                b.into_inner().map_err(e)
+            }
+        }
+        5 => {
+            if a.is_map {
+                Fst::from_iter_map(a.kvs.iter().map(|(k, v)| (k.clone(), *v))).map(|f| f.as_bytes().to_vec()).map_err(e)
+            } else {
+                Fst::from_iter_set(a.kvs.iter().map(|(k, _)| k.clone())).map(|f| f.as_bytes().to_vec()).map_err(e)
+            }
         }
         _ => {
             if a.is_map {
@@ -89,18 +128,24 @@ fn build_real(a: &Art, front: usize) -> Result<Vec<u8>, String> {
 
 pub fn build_and_crosscheck(fam: &[Art], index: &mut Index) -> Vec<Built> {
     let mut out = vec![];
-    for a in fam {
-        let built = std::panic::catch_unwind(|| build_real(a, 0));
+    for (ai, a) in fam.iter().enumerate() {
+        // the bytes embedded in the harnesses come from a front end that rotates over the family
+        let front = if a.name == "zero_after_prefix" { 2 } else { ai % FRONT_ENDS.len() };
+        let built = std::panic::catch_unwind(|| build_real(a, front));
         let bytes = match built {
             Ok(Ok(b)) => b,
             Ok(Err(e)) => { index.fail(&["C01"], &a.name, &format!("builder rejected a sorted input: {}", e)); continue; }
             Err(_) => { index.fail(&["C01"], &a.name, "builder panicked on a sorted input"); continue; }
         };
         index.native_checks += 1;
-        match build_real(a, 1) {
-            Ok(b2) if b2 == bytes => {}
-            Ok(_) => index.fail(&["C01"], &a.name, "MapBuilder/SetBuilder bytes differ from raw::Builder bytes"),
-            Err(e) => index.fail(&["C01"], &a.name, &format!("front end rejected input: {}", e)),
+        for other in 0..FRONT_ENDS.len() {
+            if other == front { continue; }
+            match std::panic::catch_unwind(|| build_real(a, other)) {
+                Ok(Ok(b2)) if b2 == bytes => {}
+                Ok(Ok(_)) => index.fail(&["C01"], &a.name, &format!("bytes built through [{}] differ from those built through [{}]", FRONT_ENDS[other], FRONT_ENDS[front])),
+                Ok(Err(e)) => index.fail(&["C01"], &a.name, &format!("front end [{}] rejected a sorted input: {}", FRONT_ENDS[other], e)),
+                Err(_) => index.fail(&["C01"], &a.name, &format!("front end [{}] panicked", FRONT_ENDS[other])),
+            }
         }
         // independent decode: format conformance + exact content
         let (mut depth, mut max_fanout) = (0, 0);
@@ -145,8 +190,8 @@ pub fn build_and_crosscheck(fam: &[Art], index: &mut Index) -> Vec<Built> {
         let v2 = refenc::encode(2, 0, &a.kvs).bytes;
         let monotone = a.is_map && is_monotone(&a.kvs);
         index.artifacts.push(format!(
-            "{{\"name\": {}, \"is_map\": {}, \"nkeys\": {}, \"nbytes\": {}, \"depth\": {}, \"max_fanout\": {}, \"monotone\": {}, \"group\": {}, \"v1_bytes\": {}, \"v2_bytes\": {}}}",
-            jstr(&a.name), a.is_map, a.kvs.len(), bytes.len(), depth, max_fanout, monotone, jstr(a.group), v1.len(), v2.len()
+            "{{\"name\": {}, \"front_end\": {}, \"is_map\": {}, \"nkeys\": {}, \"nbytes\": {}, \"depth\": {}, \"max_fanout\": {}, \"monotone\": {}, \"group\": {}, \"v1_bytes\": {}, \"v2_bytes\": {}}}",
+            jstr(&a.name), jstr(FRONT_ENDS[front]), a.is_map, a.kvs.len(), bytes.len(), depth, max_fanout, monotone, jstr(a.group), v1.len(), v2.len()
         ));
         out.push(Built { art: a.clone(), bytes, v1, v2, depth, max_fanout, monotone });
     }
@@ -206,7 +251,7 @@ pub fn emit_rust(built: &[Built], seed: u64, tier: &str, want: &dyn Fn(&str) -> 
     let mut c02: Vec<usize> = vec![];
     let mut c16: Vec<usize> = vec![];
     let mut c10: Vec<usize> = vec![];
-    let always_c02 = ["months", "only_empty_key_map", "empty", "uncommon_bytes", "fan33_set"];
+    let always_c02 = ["months", "only_empty_key_map", "empty", "uncommon_bytes", "uncommon_chain", "zero_after_prefix", "fan33_set", "fan256_map"];
     let thorough_c02 = ["fan33_deep", "months_set", "chain", "boundary", "fan31_map", "fan32_map", "fan33_map", "fan34_set", "fan255_map",
                         "fan256_map", "fan256_deep", "fan32_deep", "only_empty_key_set", "mono_deep"];
     for n in always_c02.iter() { if let Some(i) = by_name(n) { c02.push(i); } }
@@ -241,15 +286,18 @@ pub fn emit_rust(built: &[Built], seed: u64, tier: &str, want: &dyn Fn(&str) -> 
             let name = &b.art.name;
             let sname = format!("F_{}", name.to_uppercase());
             emit_static(&mut s, &sname, &b.bytes);
-            let maxl = if thorough { 4 } else { 3 }.min(b.depth + 2);
+            let mut maxl = if thorough { 4 } else { 3 }.min(b.depth + 1);
+            if b.art.name == "uncommon_chain" { maxl = 4; }
             let scan = if b.max_fanout > 32 { 32 } else { b.max_fanout };
             for l in 0..=maxl {
+                if b.art.name == "uncommon_chain" && (l == 1 || l == 2) { continue; }
+                if b.art.group == "fan" && l == 0 && !thorough { continue; }
                 let mname = format!("{}_l{}", name, l);
                 if !emitted_models.contains(&mname) { emitted_models.push(mname); s.push_str(&model_fn(name, l, &b.art.kvs)); }
                 let unwind = scan.max(8).max(l) + 2;
                 let nk = b.art.kvs.iter().filter(|(k, _)| k.len() == l).count();
                 let cover_some = if nk > 0 { "kani::cover!(want.is_some(), \"probe is an inserted key\");" } else { "" };
-                let cover_none = if l > 0 { "kani::cover!(want.is_none(), \"probe is not a key\");" } else { "" };
+                let cover_none = if l > 0 && (l > 1 || nk < 256) { "kani::cover!(want.is_none(), \"probe is not a key\");" } else { "" };
                 let api = if (l + i) % 2 == 0 || !thorough { "raw" } else if b.art.is_map { "map" } else { "set" };
                 let hname = format!("c02_{}_{}_l{}", api, name, l);
                 let body = match api {
@@ -299,6 +347,44 @@ pub fn emit_rust(built: &[Built], seed: u64, tier: &str, want: &dyn Fn(&str) -> 
         }
     }
 
+    // ---- C09: the current builder's bytes read by the independent reader ---
+    if want("C09") {
+        let mut c09: Vec<usize> = vec![];
+        for n in ["fan32_map", "fan33_map", "months", "uncommon_chain", "zero_after_prefix"].iter() { if let Some(i) = by_name(n) { c09.push(i); } }
+        c09.extend(pick(built, "ab", if thorough { 10 } else { 1 }, &mut rng, &|b| b.art.kvs.len() >= 3));
+        if thorough { for n in ["fan31_map", "fan34_set", "fan255_map", "fan256_map", "boundary", "chain"].iter() { if let Some(i) = by_name(n) { c09.push(i); } } }
+        for &i in &c09 {
+            let b = &built[i];
+            let name = &b.art.name;
+            let sname = format!("F_{}", name.to_uppercase());
+            emit_static(&mut s, &sname, &b.bytes);
+            let maxl = if b.art.group == "fan" { 1 } else { 3.min(b.depth) };
+            for l in 1..=maxl.max(1) {
+                if name == "uncommon_chain" && l < 3 { continue; }
+                let l = if name == "uncommon_chain" { 4 } else { l };
+                let mname = format!("{}_l{}", name, l);
+                if !emitted_models.contains(&mname) { emitted_models.push(mname); s.push_str(&model_fn(name, l, &b.art.kvs)); }
+                let unwind = b.max_fanout.max(8).max(l) + 2;
+                let hname = format!("c09_indep_{}_l{}", name, l);
+                if index.harnesses.iter().any(|h| h.contains(&format!("\"generated::{}\"", hname))) { continue; }
+                let _ = writeln!(s,
+"#[kani::proof]
+#[kani::unwind({uw})]
+fn {h}() {{
+    let p: [u8; {l}] = kani::any();
+    let want = model_{n}_l{l}(&p);
+    let got = crate::layout::indep_get(&{sn}[..], &p[..]);
+    assert!(got == want, \"reading the builder's bytes by the format description alone does not yield the inserted map\");
+    assert!(crate::layout::indep_len(&{sn}[..]) == {nk}, \"footer key count\");
+}}
+", uw = unwind, h = hname, l = l, n = name, sn = sname, nk = b.art.kvs.len());
+                harness_entry(index, "C09", &hname, name, unwind,
+                              &format!("independent reader (format description only) on the current builder's bytes for {} ({} bytes): every probe of length {}", name, b.bytes.len(), l),
+                              "[]", "light");
+            }
+        }
+    }
+
     // ---- C16: get_key on monotone maps -----------------------------------
     if want("C16") {
         for &i in &c16 {
@@ -340,6 +426,43 @@ fn {h}() {{
 }}
 ", uw = unwind, h = hname, sn = sname, cap = b.depth + 4, arms = arms);
             let rules = format!("[[\"get_key_into\", {}], [\"Transitions|TakeWhile|take_while|::last|fold\", {}], [\"unpack_uint\", 9]]", b.depth + 2, scan + 2);
+            if thorough && (name == "mono_empty0" || name == "mono4") {
+                // the caller's buffer already holds more bytes than the whole FST
+                let n = b.bytes.len() + 2;
+                let hname2 = format!("c16_longbuf_{}", name);
+                let mut arms2 = String::new();
+                for (k, v) in &b.art.kvs {
+                    let mut checks = format!("assert!(found, \"a stored value is not found (pre-filled buffer)\"); assert!(buf.len() == {}, \"appended key length\"); assert!(buf[0] == pre && buf[{}] == pre, \"caller's bytes preserved\");", n + k.len(), n - 1);
+                    for (j, byte) in k.iter().enumerate() {
+                        let _ = write!(checks, " assert!(buf[{}] == {}, \"appended key bytes\");", j + n, byte);
+                    }
+                    let _ = writeln!(arms2, "            if v == {}u64 {{ {} hit = true; }}", v, checks);
+                }
+                let _ = writeln!(s,
+"#[kani::proof]
+#[kani::unwind({uw})]
+fn {h}() {{
+    let v: u64 = kani::any();
+    let pre: u8 = kani::any();
+    match Fst::new(&{sn}[..]) {{
+        Ok(f) => {{
+            let mut buf: Vec<u8> = Vec::with_capacity({cap});
+            let mut i = 0;
+            while i < {n} {{ buf.push(pre); i += 1; }}
+            let found = f.get_key_into(v, &mut buf);
+            let mut hit = false;
+{arms}            if !hit {{ assert!(!found, \"a value no key has is reported as found\"); }}
+            kani::cover!(found, \"some value is found\");
+            core::mem::forget(buf);
+        }}
+        Err(e) => {{ core::mem::forget(e); assert!(false, \"built FST does not open\"); }}
+    }}
+}}
+", uw = unwind.max(n + 2), h = hname2, sn = sname, cap = n + b.depth + 4, n = n, arms = arms2);
+                harness_entry(index, "C16", &hname2, name, unwind.max(n + 2),
+                              &format!("get_key_into on {} with a caller buffer of {} bytes (longer than the FST): every u64 query value", name, n),
+                              &rules, "heavy");
+            }
             harness_entry(index, "C16", &hname, name, unwind,
                           &format!("get_key_into on {} ({} keys, depth {}): every u64 query value, symbolic caller prefix", name, b.art.kvs.len(), b.depth),
                           &rules, "heavy");
